@@ -69,7 +69,7 @@ def EXACT(
 def FIND(
         find_text: func_xltypes.XlText,
         within_text: func_xltypes.XlText,
-        start_num: func_xltypes.Number = 0,
+        start_num: func_xltypes.Number = 1,
 ) -> func_xltypes.Number:
     """FIND and FINDB locate one text string within a second text string,
     and return the number of the starting position of the first text string
@@ -83,9 +83,11 @@ def FIND(
     find_text_str = str(find_text)
     start_num_int = int(start_num)
 
+    if start_num_int < 1:
+        raise xlerrors.ValueExcelError(f'start_num {start_num} is < 1')
+
     # Excel operates in 1-based land, Python is usually 0-based.
-    if start_num_int > 0:
-        start_num_int = start_num_int - 1
+    start_num_int = start_num_int - 1
 
     try:
         index = within_text_str.index(find_text_str, start_num_int) + 1
@@ -109,7 +111,11 @@ def LEFT(
     https://support.office.com/en-us/article/
         left-leftb-functions-9203d2d2-7960-479b-84c6-1ea52b99640c
     """
-    return str(text)[:int(num_chars)]
+    num_chars = int(num_chars)
+    if num_chars < 0:
+        raise xlerrors.ValueExcelError(f'{num_chars} is < 0')
+
+    return str(text)[:num_chars]
 
 
 @xl.register()
@@ -189,10 +195,15 @@ def REPLACE(
     num_chars_int = int(num_chars)
     new_text_str = str(new_text)
 
-    sliced_old_text = old_text_str[start_num_int:
-                                   start_num_int + num_chars_int]
+    if start_num_int < 0 or num_chars_int < 0:
+        raise xlerrors.ValueExcelError(
+            f'start_num {start_num} must be at least 1 and num_chars '
+            f'{num_chars} at least 0')
 
-    return old_text_str.replace(sliced_old_text, new_text_str)
+    # Splice by position (str.replace would rewrite every occurrence of the
+    # replaced characters).
+    return (old_text_str[:start_num_int] + new_text_str
+            + old_text_str[start_num_int + num_chars_int:])
 
 
 @xl.register()
@@ -206,7 +217,12 @@ def RIGHT(
     https://support.office.com/en-us/article/
         right-rightb-functions-240267ee-9afa-4639-a02b-f19e1786cf2f
     """
-    return str(text)[-int(num_chars):]
+    num_chars = int(num_chars)
+    if num_chars < 0:
+        raise xlerrors.ValueExcelError(f'{num_chars} is < 0')
+
+    text = str(text)
+    return text[len(text) - min(num_chars, len(text)):]
 
 
 @xl.register()
@@ -219,7 +235,8 @@ def TRIM(
     https://support.office.com/en-us/article/
         trim-function-410388fa-c5df-49c6-b16c-9e5630b479f9
     """
-    return str(text).strip()
+    # All spaces go except single spaces between words.
+    return ' '.join(word for word in str(text).split(' ') if word)
 
 
 @xl.register()
